@@ -21,10 +21,10 @@ import (
 // an error matching net.ErrClosed.
 
 type c06Params struct {
-	Name   string
-	K      connCfg
-	Mode   string // echo-reader | echo-closeread | echo-noreader | orders
-	Pinger bool
+	Name    string
+	K       connCfg
+	Mode    string // echo-reader | echo-closeread | echo-noreader | orders
+	Pinger  bool
 	PeerEOF bool // the peer ends its transport side right after the echo
 }
 
